@@ -143,6 +143,9 @@ def operatorCall (self : Val) (op : Op) (other : Option Val) : Except ErrK Val :
   | some (.ty t) => match other with
     | some o => if isInstance o t then opBody self op other else .error .invalidArguments
     | none => .error .unsupported
+  | some (.tys l) => match other with
+    | some o => if l.any (isInstance o) then opBody self op other else .error .invalidArguments
+    | none => .error .unsupported
   | some .untyped => opBody self op other
 
 def arithOp : ArithOp → Op
